@@ -9,9 +9,12 @@ def main(argv):
     timeout = 10
     quals = []
     show = False
+    noretry = False
     for a in argv:
         if a.startswith("--timeout="):
             timeout = int(a.split("=")[1])
+        elif a == "--no-retry":
+            noretry = True
         elif a == "--show":
             show = True
         else:
@@ -32,6 +35,13 @@ def main(argv):
         allobls.extend(r["obligations"])
     print("generated %d obligations in %.1fs" % (len(allobls), time.time() - t0))
     res = discharge(allobls, timeout=timeout, engine=eng)
+    # an obligation the loaded pool left undecided is retried alone with a larger budget (as the checks do)
+    for i, r in enumerate(res):
+        ok = (r["verdict"] == "unsat") if r["kind"] != "reach" else (r["verdict"] in ("sat", "unknown"))
+        if not ok and not noretry and r["verdict"] in ("unknown", "timeout"):
+            r2 = discharge([allobls[i]], timeout=max(60, timeout * 3), workers=1, engine=eng)[0]
+            r2["retried"] = True
+            res[i] = r2
     bad = 0
     for r in res:
         v = r["verdict"]
